@@ -448,7 +448,8 @@ func c09FlowGen(r *Rng) c09FlowScn {
 				}
 				tm.Sec = &k
 				if r.Chance(9, 10) {
-					sec := c09ASecret{NS: k.NS, Name: k.Name, Type: c09ConnType, Ctrl: "m:" + tm.CD + ":1", Plain: []string{}, Data: []c09KV{}}
+					// providers mostly write connection-typed secrets; the fetcher reads whatever is referenced
+					sec := c09ASecret{NS: k.NS, Name: k.Name, Type: Pick(r, []string{c09ConnType, c09ConnType, c09ConnType, "Opaque", ""}), Ctrl: "m:" + tm.CD + ":1", Plain: []string{}, Data: []c09KV{}}
 					for _, dk := range keys {
 						if r.Chance(3, 5) {
 							sec.Data = append(sec.Data, c09KV{K: dk, V: fmt.Sprintf("%s.%s.%s", k.NS, k.Name, dk)})
